@@ -33,6 +33,8 @@ SHAPES = {
     "R5all": ("$X.iter().all($P)", "vf_iter_all($X, $P)"),
     "R5mall": ("$X.iter().map($F).all($P)", "vf_iter_map_all($X, $F, $P)"),
     "Rz":    ("$X.iter().zip($Y).all($P)", "vf_zip_all($X, $Y, $P)"),
+    "Rzi":   ("$X.iter().zip($Y.iter()).all($P)", "vf_zip_all($X, $Y, $P)"),
+    "R2i":   ("$X.iter().map($F).collect::<Vec<_>>()", "vf_iter_map_collect($X, $F)"),
     "R6":    ("$X.iter().fold($I, $F)", "vf_iter_fold($X, $I, $F)"),
     "R6r":   ("$X.into_iter().map($F).reduce($G).unwrap_or($D)", "vf_map_reduce_or($X, $F, $G, $D)"),
     # rule E6: conversions through From/Into become calls of the assumed VfInto instances
